@@ -107,3 +107,22 @@ func allAtoms() []string {
 	all = append(all, LexemeAtoms...)
 	return all
 }
+
+// longTokenInputs: names, numbers, strings, comments, white space inside code and argument lists of about n bytes
+func longTokenInputs(n int) []string {
+	return []string{
+		"a {{ " + strings.Repeat("x", n) + " }} b",
+		"{{ " + strings.Repeat("7", n) + " }}",
+		"{{ 1." + strings.Repeat("5", n) + " + 2 }}",
+		"{{ \"" + strings.Repeat("sé", n/3) + "\" }}\n{{ y }}",
+		"{{ '" + strings.Repeat("s\n", n/2) + "' }}{{ y }}",
+		"a{{--" + strings.Repeat(" c\n", n/3) + "--}}b {{ z }}",
+		"{{ 1 +" + strings.Repeat(" ", n) + "2 }} {{ w }}",
+		"{{ 1 +" + strings.Repeat("\n", n) + "2 }}\n{{ w }}",
+		"@if(" + strings.Repeat("(", n%1000) + "1" + strings.Repeat(")", n%1000) + ")x@end",
+		"{{ [" + strings.Repeat("1, ", n/3) + "1] }}",
+		strings.Repeat("@", n) + "{{ v }}",
+		strings.Repeat("\\", n) + "{{ v }}",
+		"{{ x" + strings.Repeat(".y", n/2) + " }}",
+	}
+}
